@@ -23,6 +23,17 @@ SYS = {
         "random": {"quick": (300, 40), "thorough": (12000, 60)},
         "trace": {"module": "Cw20Trace", "consts": '  Addr = {"a1", "a2", "a3", "k1"}\n'},
     },
+    "thr": {
+        "dir": "spec/cw3",
+        "harness": "thr",
+        "mc": {
+            "quick": [{"module": "Cw3ThresholdMC", "consts": "Cw3ThresholdMC_quick.consts"}],
+            "thorough": [{"module": "Cw3ThresholdMC", "consts": "Cw3ThresholdMC_thorough.consts"}],
+        },
+        "gen": {},
+        "random": {"quick": (6000, 0), "thorough": (400000, 0)},
+        "trace": {"module": "Cw3ThresholdTrace", "consts": "  PDEN = 1000\n  PREC = 1000\n"},
+    },
 }
 
 PROPS = {
@@ -54,5 +65,17 @@ PROPS = {
         "tr_inv": ["C19_ViewsAgree"],
         "tr_props": ["T_C19_MigrateKeeps", "T_C19_OnlyMigrateMigrates"],
         "acts": ["increase_allowance", "decrease_allowance", "transfer_from", "send_from", "burn_from", "migrate"],
+    },
+    "C04": {
+        "sys": "thr",
+        "mode": {"quick": "grid:7", "thorough": "grid:10"},
+        "mc_inv": ["AfterExpiryExact", "NeverPassedWithoutYes", "EarlyPassExact", "EarlyRejectSound", "AfterExpiryRejectSound", "NotBoth", "NeededExact"],
+        "mc_props": [],
+        "tr_inv": ["C04_NoPanic", "C04_AfterExpiryExact", "C04_EarlyPassExact", "C04_EarlyRejectSound", "C04_AfterExpiryRejectSound",
+                   "C04_NeverPassedWithoutYes", "C04_NotBoth", "C04_StatusConsistent", "C04_BigNoPanic", "C04_BigExact", "C04_BigWithinOne"],
+        "tr_props": [],
+        "acts": ["case", "bigcase"],
+        "assumptions": ["AbsoluteCount weights above the total weight (rejected by Threshold::validate, where is_rejected underflows) are outside the checked domain",
+                        "early-decision soundness at u64 magnitudes rests on the closed forms, whose equivalence with the quantification over all completions is checked exhaustively only on the small domain"],
     },
 }
